@@ -2,17 +2,21 @@
 // order.
 //
 // rapid draws request sequences over {OPTIONS, DESCRIBE, ANNOUNCE, SETUP(video|
-// audio × tcp|udp|multicast × play|record × valid|malformed transport), PLAY,
-// RECORD, PAUSE, GET_PARAMETER, TEARDOWN, unknown methods} × paths {live, live
-// with multicast source, missing, fresh publish path} × SDP bodies {valid,
-// video only, no a=control, garbage, m= line without format, empty}; a scripted
-// client (lib/rtspc, written from RFC 2326) runs them over a real TCP or
-// ws-rtsp connection against the in-process server (lib/srv) that carries two
-// live streams; every request is followed by a pipelined OPTIONS probe, so "no
+// audio × tcp|udp|multicast × default|play|record × valid|malformed transport),
+// PLAY, RECORD, PAUSE, GET/SET_PARAMETER, TEARDOWN, unknown methods} × paths
+// {live, live with multicast source, missing, fresh publish path} × SDP bodies
+// {valid, video only, no a=control, garbage, m= line without format, empty}; a
+// scripted client runs them over a real TCP connection, a ws-rtsp WebSocket
+// (lib/rtspc, written from RFC 2326) or a WSP control + data channel pair
+// (wsp_test.go) against the in-process server (lib/srv) that carries two live
+// streams. Every request is followed by a pipelined OPTIONS probe, so "no
 // response" and "two responses" are observed by order, never by a timeout. The
 // reference automaton of model_test.go judges every status; registry, consumer
-// counts and the RTSP connection counter are compared with the model after
-// every step and after the connection ended.
+// counts and the RTSP/WSP connection counters are compared with the model after
+// every step and after the connection ended (TEARDOWN, close, half-close).
+// witness_test.go holds fixed plans (legal dialogues and the minimal witnesses
+// of the defects this check found, all repaired in /repo); stress_test.go ends
+// play sessions while media flows.
 package c12
 
 import (
@@ -849,7 +853,7 @@ func record(p *plan, out outcome) {
 	}
 }
 
-const ruleText = "rapid: request sequences (len <= 10 quick / 14 thorough) over {OPTIONS, DESCRIBE, ANNOUNCE, SETUP(video|audio x tcp|udp|multicast x default|play|record x valid|7 malformed transports), PLAY, RECORD, PAUSE, GET/SET_PARAMETER, TEARDOWN, unknown methods} x paths {live, live+multicast, missing, fresh publish path} x SDP {valid, video only, no control, garbage, no format, empty}; 60% of the steps follow the legal dialogue towards a drawn goal (play/record), the rest is free; each request is followed by a pipelined OPTIONS probe; judged by the reference automaton of model_test.go (RFC 2326 A.2 + statement) and by consumer counts / registry / RtspConns after every step and after disconnect. Non-trivial = the sequence reaches playing or recording and contains >= 1 refused request; distinct = distinct plan"
+const ruleText = "rapid: request sequences (len <= 10 quick / 14 thorough) over {OPTIONS, DESCRIBE, ANNOUNCE, SETUP(video|audio x tcp|udp|multicast x default|play|record x valid|7 malformed transports), PLAY, RECORD, PAUSE, GET/SET_PARAMETER, TEARDOWN, unknown methods} x paths {live, live+multicast, missing, fresh publish path} x SDP {valid, video only, no control, garbage, no format, empty}; 60% of the steps follow the legal dialogue towards a drawn goal (play/record), the rest is free; on TCP, ws-rtsp and WSP (control + data channel); each request is followed by a pipelined OPTIONS probe; judged by the reference automaton of model_test.go (RFC 2326 A.2 + statement) and by consumer counts / registry / RtspConns after every step and after disconnect. Non-trivial = the sequence reaches playing or recording and contains >= 1 refused request; distinct = distinct plan"
 
 func runRapid(t *testing.T, transport string, quick, thorough int) {
 	w := getWorld(t)
